@@ -189,48 +189,20 @@ def traversal_full(P, fn, g, N, T, upd):
 
 def check_defaults(P, ctx):
     rule = 'C10.copy-default'
-    # assign / swap without an own instance: byte-wise over all size bytes only for equal types of non-zero size; else TypeError (evaluated)
-    from . import cint
-    for fname, lib in (('assign', 'memcpy'), ('swap', 'memswap')):
+    # assign / swap: own member when the type has one, else byte-wise over all size bytes only for equal types of non-zero size, else
+    # TypeError (evaluated)
+    from . import evals
+    res = {}
+    for fname, lib, member, ret in (('assign', 'memcpy', 'assign', 'self'), ('swap', 'memswap', 'swap', 'void')):
         fn = P.fn(fname)
         ctx.fn(fn)
-        bad, unsup = None, None
-        SELF_, OBJ = 5000, 6000
-        for same in (1, 0):
-            for sz in (0, 8, 24):
-                for inst in (0, 1):          # an instance whose member is empty counts as no own instance
-                    events = []
-
-                    def call(nm, e, it, same=same, sz=sz, inst=inst, events=events):
-                        if nm == 'instance':
-                            return ('ep', 'inst', 0) if inst else 0
-                        if nm == 'type_of':
-                            v = it.ev(e[2][0])
-                            return 8500 if (v == SELF_ or same) else 8600
-                        if nm == 'size':
-                            return sz if it.ev(e[2][0]) == 8500 else sz + 8
-                        if nm == lib:
-                            events.append([it.ev(x) for x in e[2]])
-                            return it.ev(e[2][0])
-                        raise cint.NoEval('call %s' % nm)
-                    atoms = {('global', 'NULL'): 0, ('elem', 'inst', 0, 'assign'): 0, ('elem', 'inst', 0, 'swap'): 0}
-                    r = cint.CInt(P, fn, atoms=atoms, call=call, N=util.Norm(P, fn, expand_locals=False, inline=False)).run([SELF_, OBJ])
-                    label = '%s types, size %d' % ('equal' if same else 'different', sz)
-                    if r[0] == 'stuck':
-                        unsup = '%s: %s' % (label, r[1])
-                        continue
-                    if same and sz:
-                        good = r[0] == 'ret' and events == [[SELF_, OBJ, sz]] and (fname == 'swap' or r[1] == SELF_)
-                    else:
-                        good = r[0] == 'term' and r[1] == ('throw', 'TypeError') and not events
-                    if not good and bad is None:
-                        bad = '%s: %s; %s' % (label, ('%s%s' % (lib, tuple(events[0]))) if events else 'no %s' % lib,
-                                              'returns %s' % (r[1],) if r[0] == 'ret' else 'raises %s' % (r[1][1] if isinstance(r[1], tuple) else r[1]))
-        if unsup and not bad:
+        bad, unsup = evals.eval_default_dispatch(P, fname, member, lib, ret)
+        res[fname] = (bad, unsup)
+        if unsup and not bad['bytewise']:
             ctx.undecided(rule, fname + ':bytewise', site(fn), 'leaves the evaluated fragment: ' + unsup)
         else:
-            ctx.check(bad is None, rule, fname + ':bytewise', site(fn), 'without an own instance, %s works byte-wise over all size(type) bytes of (self, obj) only for equal types of non-zero size, else TypeError' % fname,
-                      [bad] if bad else None)
+            ctx.check(bad['bytewise'] is None, rule, fname + ':bytewise', site(fn), 'without an own instance, %s works byte-wise over all size(type) bytes of (self, obj) only for equal types of non-zero size, else TypeError' % fname,
+                      [bad['bytewise']] if bad['bytewise'] else None)
     fn = P.fn('copy')
     g = P.cfg(fn)
     N = util.Norm(P, fn, expand_locals=True, keep={'alloc', 'type_of', 'assign'})
@@ -239,13 +211,11 @@ def check_defaults(P, ctx):
     ctx.check(any(N.canon(n['expr']) == want_e for n in rets), rule, 'copy', site(fn), 'the default copy is assign(alloc(type_of(self)), self)')
     # assign returns self after the type's own assign
     fn = P.fn('assign')
-    g = P.cfg(fn)
-    ind = [n for n in g.live() if n['expr'] is not None and any(ir.callee_name(c) is None and ir.top_nocast(c[1])[0] == 'arrow' and ir.top_nocast(c[1])[2] == 'assign' for c in ir.calls(n['expr']))]
-    ok = len(ind) == 1
-    if ok:
-        c = [c for c in ir.calls(ind[0]['expr']) if ir.callee_name(c) is None][0]
-        ok = [ir.canon(a) for a in c[2]] == [('param', 0), ('param', 1)]
-    ctx.check(ok, rule, 'assign:dispatch', site(fn), 'a type\'s own assign is called with (self, obj) in order')
+    bad, unsup = res['assign']
+    if unsup and not bad['dispatch']:
+        ctx.undecided(rule, 'assign:dispatch', site(fn), 'leaves the evaluated fragment: ' + unsup)
+    else:
+        ctx.check(bad['dispatch'] is None, rule, 'assign:dispatch', site(fn), 'a type\'s own assign is called with (self, obj) in order (once; self is returned)', [bad['dispatch']] if bad['dispatch'] else None)
     ctx.floor(rule, 4)
 
 
